@@ -207,8 +207,8 @@ func Classify(e any) string {
 		return "type-assert"
 	case strings.Contains(m, "divide by zero"):
 		return "div-zero"
-	case strings.Contains(m, "makeslice"):
-		return "makeslice"
+	case strings.Contains(m, "makeslice"), strings.Contains(m, "growslice"):
+		return "alloc-size"
 	case strings.Contains(m, "negative shift"):
 		return "shift"
 	}
